@@ -100,6 +100,15 @@ Proof.
 Qed.
 Print Assumptions C09_global_derivative_tables.
 
+(* ElementGlobal family, the defining functionals: the REAL gdof of every class, run on symbolic vertices / recorders,
+   is per local DOF exactly the functional its dofname denotes (value, the partial derivative with that multi-index,
+   normal derivative at that edge) at the canonical location of the entity the DOF layout attaches it to (the vertex,
+   the mean of the facet's vertices, the mean of all vertices), and that location is the doflocs row.  The basis is
+   V^-1 of the matrix of these functionals on the monomials (numerical inverse: duality itself is oracle-checked). *)
+Theorem C09_global_functionals_as_named : forall g, In g global_functionals -> gdof_spec g.
+Proof. intros g Hg. apply gdof_ok_sound. exact (proj1 (Forall_forall _ _) global_gdof_ok g Hg). Qed.
+Print Assumptions C09_global_functionals_as_named.
+
 (* pderiv IS the formal derivative: additive, Leibniz, variables, constants (any ring over Q) *)
 Theorem C09_pderiv_is_formal_derivative :
   forall (R : Type) (rO rI : R) (radd rmul rsub : R -> R -> R) (ropp : R -> R) (req : R -> R -> Prop) (phi : Q -> R),
@@ -126,6 +135,51 @@ Proof.
   - apply (peval_padd R rO rI radd rmul rsub ropp req phi H1 H2 H3).
 Qed.
 Print Assumptions C09_pderiv_is_formal_derivative.
+
+(* ---- integrated-Legendre family ElementLinePp(p), ElementQuadP(p), p = 1..5 (bound: the list legendre_elements) ----
+   The real lbasis and _reval_legendre are executed symbolically; the scale sqrt((2n-1)/2) of mode n is kept as a FORMAL
+   indeterminate c_n (extra polynomial variable), so every identity below holds for every value of the scales, in
+   particular the real ones; NumPy's float coefficients of Legendre(c).integ() (round-off ~1e-17) are snapped to the
+   rational within 4e-16, so the statements are about the ideal coefficients and this family's tie to the source is
+   the tolerance correspondence (1e-9) run by the check, not exact evaluation. *)
+Theorem C09_legendre_deriv_is_derivative :
+  forall (R : Type) (rO rI : R) (radd rmul rsub : R -> R -> R) (ropp : R -> R) (req : R -> R -> Prop) (phi : Q -> R),
+    Equivalence req -> ring_eq_ext radd rmul ropp req -> ring_theory rO rI radd rmul rsub ropp req ->
+    ring_morph rO rI radd rmul rsub ropp req 0%Q 1%Q Qplus Qmult Qminus Qopp Qeq_bool phi ->
+    forall e, In e legendre_elements -> forall b, In b (e_basis e) ->
+      bfun_spec R rO rI radd rmul ropp req phi (e_dim e) b.
+Proof.
+  intros R rO rI radd rmul rsub ropp req phi H1 H2 H3 H4 e He.
+  apply (deriv_ok_sound R rO rI radd rmul rsub ropp req phi H1 H2 H3 H4).
+  exact (proj1 (Forall_forall _ _) legendre_deriv_ok e He).
+Qed.
+Print Assumptions C09_legendre_deriv_is_derivative.
+
+(* endpoint / vertex values: every basis function (vertex functions AND all integrated-Legendre modes) takes the value
+   delta_ij at every located DOF (the endpoints resp. the four vertices), for EVERY value of the scales *)
+Theorem C09_legendre_vertex_values :
+  forall (R : Type) (rO rI : R) (radd rmul rsub : R -> R -> R) (ropp : R -> R) (req : R -> R -> Prop) (phi : Q -> R),
+    Equivalence req -> ring_eq_ext radd rmul ropp req -> ring_theory rO rI radd rmul rsub ropp req ->
+    ring_morph rO rI radd rmul rsub ropp req 0%Q 1%Q Qplus Qmult Qminus Qopp Qeq_bool phi ->
+    forall e, In e legendre_elements -> duality_param_spec R rO rI radd rmul req phi e.
+Proof.
+  intros R rO rI radd rmul rsub ropp req phi H1 H2 H3 H4 e He.
+  apply (duality_param_ok_sound R rO rI radd rmul rsub ropp req phi H1 H2 H3 H4).
+  exact (proj1 (Forall_forall _ _) legendre_dual_ok e He).
+Qed.
+Print Assumptions C09_legendre_vertex_values.
+
+Theorem C09_legendre_partition_of_unity :
+  forall (R : Type) (rO rI : R) (radd rmul rsub : R -> R -> R) (ropp : R -> R) (req : R -> R -> Prop) (phi : Q -> R),
+    Equivalence req -> ring_eq_ext radd rmul ropp req -> ring_theory rO rI radd rmul rsub ropp req ->
+    ring_morph rO rI radd rmul rsub ropp req 0%Q 1%Q Qplus Qmult Qminus Qopp Qeq_bool phi ->
+    forall e, In e legendre_elements -> pou_spec R rO rI radd rmul req phi e.
+Proof.
+  intros R rO rI radd rmul rsub ropp req phi H1 H2 H3 H4 e He.
+  apply (pou_ok_sound R rO rI radd rmul rsub ropp req phi H1 H2 H3 H4).
+  exact (proj1 (Forall_forall _ _) legendre_pou_ok e He).
+Qed.
+Print Assumptions C09_legendre_partition_of_unity.
 
 (* ---- mapped derivatives (any non-degenerate affine cell) ---- *)
 
@@ -189,9 +243,31 @@ Theorem C09_piola_value_is_generated_einsum :
 Proof. exact piola_value2_is_generated. Qed.
 Print Assumptions C09_piola_value_is_generated_einsum.
 
+(* H(div), 3-D elements, per class (ElementTetRT1, ElementHexRT1 on affine cells) *)
+Theorem C09_hdiv_mapped_divergence_3d :
+  forall e, In e all_elements -> e_dim e = 3%nat ->
+  forall v dv, In (BHdiv v dv) (e_basis e) ->
+  forall (A B : nat -> nat -> Q) (c x : nat -> Q) (absdet orient : Q),
+    orient * orient == 1 -> ~ absdet == 0 ->
+    B 0%nat 0%nat * A 0%nat 0%nat + B 0%nat 1%nat * A 1%nat 0%nat + B 0%nat 2%nat * A 2%nat 0%nat == 1 ->
+    B 0%nat 0%nat * A 0%nat 1%nat + B 0%nat 1%nat * A 1%nat 1%nat + B 0%nat 2%nat * A 2%nat 1%nat == 0 ->
+    B 0%nat 0%nat * A 0%nat 2%nat + B 0%nat 1%nat * A 1%nat 2%nat + B 0%nat 2%nat * A 2%nat 2%nat == 0 ->
+    B 1%nat 0%nat * A 0%nat 0%nat + B 1%nat 1%nat * A 1%nat 0%nat + B 1%nat 2%nat * A 2%nat 0%nat == 0 ->
+    B 1%nat 0%nat * A 0%nat 1%nat + B 1%nat 1%nat * A 1%nat 1%nat + B 1%nat 2%nat * A 2%nat 1%nat == 1 ->
+    B 1%nat 0%nat * A 0%nat 2%nat + B 1%nat 1%nat * A 1%nat 2%nat + B 1%nat 2%nat * A 2%nat 2%nat == 0 ->
+    B 2%nat 0%nat * A 0%nat 0%nat + B 2%nat 1%nat * A 1%nat 0%nat + B 2%nat 2%nat * A 2%nat 0%nat == 0 ->
+    B 2%nat 0%nat * A 0%nat 1%nat + B 2%nat 1%nat * A 1%nat 1%nat + B 2%nat 2%nat * A 2%nat 1%nat == 0 ->
+    B 2%nat 0%nat * A 0%nat 2%nat + B 2%nat 1%nat * A 1%nat 2%nat + B 2%nat 2%nat * A 2%nat 2%nat == 1 ->
+    let s := gen_hdiv_scale absdet orient in
+    let val := piola_value3 A s (aff_map B c 3) (nthp v 0) (nthp v 1) (nthp v 2) in
+    qeval (pderiv 0 (val 0%nat)) x + qeval (pderiv 1 (val 1%nat)) x + qeval (pderiv 2 (val 2%nat)) x
+    == gen_hdiv_div (qeval dv (qimage B c 3 x)) absdet orient.
+Proof. exact hdiv_mapped_divergence3. Qed.
+Print Assumptions C09_hdiv_mapped_divergence_3d.
+
 (* H(div) 3-D and H(curl) 2-D, for ALL polynomial fields: div (A f o G s) = s (div f) o G when B A = I;
    curl (B^T f o G o) = o det(B) (curl f) o G; and the delivered scalings agree with them *)
-Theorem C09_hdiv_piola_div_3d_partial :
+Theorem C09_hdiv_piola_div_3d :
   forall (A B : nat -> nat -> Q) (c : nat -> Q) (s : Q) (f0 f1 f2 : poly) (x : nat -> Q),
   mono_len_le 3 f0 -> mono_len_le 3 f1 -> mono_len_le 3 f2 ->
   B 0%nat 0%nat * A 0%nat 0%nat + B 0%nat 1%nat * A 1%nat 0%nat + B 0%nat 2%nat * A 2%nat 0%nat == 1 ->
@@ -208,7 +284,7 @@ Theorem C09_hdiv_piola_div_3d_partial :
   + qeval (pderiv 2 (piola_value3 A s (aff_map B c 3) f0 f1 f2 2)) x
   == s * (qeval (pderiv 0 f0) (qimage B c 3 x) + qeval (pderiv 1 f1) (qimage B c 3 x) + qeval (pderiv 2 f2) (qimage B c 3 x)).
 Proof. exact hdiv_piola_div3. Qed.
-Print Assumptions C09_hdiv_piola_div_3d_partial.
+Print Assumptions C09_hdiv_piola_div_3d.
 
 Theorem C09_hcurl_covariant_curl_2d :
   (forall (B : nat -> nat -> Q) (c : nat -> Q) (o : Q) (f0 f1 : poly) (x : nat -> Q),
@@ -222,8 +298,47 @@ Theorem C09_hcurl_covariant_curl_2d :
     == gen_hcurl_value2 B (fun i => qeval (nth i [f0; f1] []) (qimage B c 2 x)) o j).
 Proof. split; [exact hcurl_cov_curl2 | split; [exact hcurl_curl2_scale | exact cov_value2_is_generated]]. Qed.
 Print Assumptions C09_hcurl_covariant_curl_2d.
-(* not proved (oracle only): the 3-D covariant curl identity curl(B^T f o G) = det(B) A (curl f) o G, element-level
-   3-D H(div) instance, multilinear (quad/hex) geometries, matrix Piola map of the HHJ elements *)
+(* H(curl), 3-D, for ALL polynomial fields: the three components of curl (B^T (f o G) o) equal o det(B) A (curl f) o G,
+   A the inverse of B given by the cofactor relations (row_m(B) x row_i(B))_a = det(B) A_(a,l), (m,i,l) cyclic;
+   the delivered curl (regenerated einsum with DF = A and scale 1/detDF * orient, detDF det(B) = 1) is that expression;
+   cov_value3 is the regenerated einsum('ijkl,il,k->jkl', invDF, phi, orient) of the delivered values *)
+Theorem C09_hcurl_covariant_curl_3d :
+  (forall (A B : nat -> nat -> Q) (c : nat -> Q) (o detB : Q) (f0 f1 f2 : poly) (x : nat -> Q),
+    mono_len_le 3 f0 -> mono_len_le 3 f1 -> mono_len_le 3 f2 ->
+    B 1%nat 1%nat * B 2%nat 2%nat - B 1%nat 2%nat * B 2%nat 1%nat == detB * A 0%nat 0%nat ->
+    B 2%nat 1%nat * B 0%nat 2%nat - B 2%nat 2%nat * B 0%nat 1%nat == detB * A 0%nat 1%nat ->
+    B 0%nat 1%nat * B 1%nat 2%nat - B 0%nat 2%nat * B 1%nat 1%nat == detB * A 0%nat 2%nat ->
+    qeval (pderiv 1 (cov_value3 B o (aff_map B c 3) f0 f1 f2 2)) x - qeval (pderiv 2 (cov_value3 B o (aff_map B c 3) f0 f1 f2 1)) x
+    == o * detB * (A 0%nat 0%nat * curl_comp f0 f1 f2 0 (qimage B c 3 x) + A 0%nat 1%nat * curl_comp f0 f1 f2 1 (qimage B c 3 x)
+                   + A 0%nat 2%nat * curl_comp f0 f1 f2 2 (qimage B c 3 x))) /\
+  (forall (A B : nat -> nat -> Q) (c : nat -> Q) (o detB : Q) (f0 f1 f2 : poly) (x : nat -> Q),
+    mono_len_le 3 f0 -> mono_len_le 3 f1 -> mono_len_le 3 f2 ->
+    B 1%nat 2%nat * B 2%nat 0%nat - B 1%nat 0%nat * B 2%nat 2%nat == detB * A 1%nat 0%nat ->
+    B 2%nat 2%nat * B 0%nat 0%nat - B 2%nat 0%nat * B 0%nat 2%nat == detB * A 1%nat 1%nat ->
+    B 0%nat 2%nat * B 1%nat 0%nat - B 0%nat 0%nat * B 1%nat 2%nat == detB * A 1%nat 2%nat ->
+    qeval (pderiv 2 (cov_value3 B o (aff_map B c 3) f0 f1 f2 0)) x - qeval (pderiv 0 (cov_value3 B o (aff_map B c 3) f0 f1 f2 2)) x
+    == o * detB * (A 1%nat 0%nat * curl_comp f0 f1 f2 0 (qimage B c 3 x) + A 1%nat 1%nat * curl_comp f0 f1 f2 1 (qimage B c 3 x)
+                   + A 1%nat 2%nat * curl_comp f0 f1 f2 2 (qimage B c 3 x))) /\
+  (forall (A B : nat -> nat -> Q) (c : nat -> Q) (o detB : Q) (f0 f1 f2 : poly) (x : nat -> Q),
+    mono_len_le 3 f0 -> mono_len_le 3 f1 -> mono_len_le 3 f2 ->
+    B 1%nat 0%nat * B 2%nat 1%nat - B 1%nat 1%nat * B 2%nat 0%nat == detB * A 2%nat 0%nat ->
+    B 2%nat 0%nat * B 0%nat 1%nat - B 2%nat 1%nat * B 0%nat 0%nat == detB * A 2%nat 1%nat ->
+    B 0%nat 0%nat * B 1%nat 1%nat - B 0%nat 1%nat * B 1%nat 0%nat == detB * A 2%nat 2%nat ->
+    qeval (pderiv 0 (cov_value3 B o (aff_map B c 3) f0 f1 f2 1)) x - qeval (pderiv 1 (cov_value3 B o (aff_map B c 3) f0 f1 f2 0)) x
+    == o * detB * (A 2%nat 0%nat * curl_comp f0 f1 f2 0 (qimage B c 3 x) + A 2%nat 1%nat * curl_comp f0 f1 f2 1 (qimage B c 3 x)
+                   + A 2%nat 2%nat * curl_comp f0 f1 f2 2 (qimage B c 3 x))) /\
+  (forall (A : nat -> nat -> Q) (dphi : nat -> Q) (detDF orient detB : Q) (i : nat), detDF * detB == 1 ->
+    gen_hcurl_curl3 A dphi (gen_hcurl_scale detDF orient) i
+    == orient * detB * (A i 0%nat * dphi 0%nat + A i 1%nat * dphi 1%nat + A i 2%nat * dphi 2%nat)) /\
+  (forall B o c f0 f1 f2 j x,
+    qeval (cov_value3 B o (aff_map B c 3) f0 f1 f2 j) x
+    == gen_hcurl_value3 B (fun i => qeval (nth i [f0; f1; f2] []) (qimage B c 3 x)) o j).
+Proof.
+  split; [exact hcurl_cov_curl3_0|]. split; [exact hcurl_cov_curl3_1|]. split; [exact hcurl_cov_curl3_2|].
+  split; [exact hcurl_curl3_scale | exact cov_value3_is_generated].
+Qed.
+Print Assumptions C09_hcurl_covariant_curl_3d.
+(* not proved (oracle only): multilinear (quad/hex) geometries, matrix Piola map of the HHJ elements, ElementTriBDM1 *)
 
 (* ---- the derivative of analysis (Coquelicot): at every REAL point the delivered gradient component is the
    partial derivative of the delivered value; div / curl are sums / differences of such derivatives.
